@@ -109,8 +109,11 @@ pub fn run(source: &Path) -> Result<()> {
         let rtx = old_db.begin_read()?;
         let wtx = new_db.begin_write()?;
 
-        let existing: std::collections::HashSet<String> =
+        // `list_tables` does not include multimap tables: without the second listing the
+        // `sync-peers-1` table would be skipped and the stored peers of every document lost.
+        let mut existing: std::collections::HashSet<String> =
             rtx.list_tables()?.map(|h| h.name().to_string()).collect();
+        existing.extend(rtx.list_multimap_tables()?.map(|h| h.name().to_string()));
 
         migrate_table!(existing, rtx, wtx, new::AUTHORS_TABLE, new::AUTHORS_TABLE);
         migrate_table!(
